@@ -168,6 +168,7 @@ class ExternalVariableCollector(NodeVisitor):
         if node.name is not None:
             self.provenance[node.name] = "body"
             self.assigned.add(node.name)
+        self.generic_visit(node)
 
     def visit_Import(self, node):
         self.visit_ImportFrom(node)
